@@ -68,6 +68,46 @@ def position_with_ref_decode(lat, lon, dlat_ref, dlon_ref, dlat_ref2, dlon_ref2,
         "the result does not change when the reference moves inside the half-zone neighbourhood"
 
 
+@harness("C04", sampler=sample_with_ref,
+         inputs={"lat": RealRange(-90, 90), "lon": RealRange(-540, 540), "dlat_ref": RealRange(-4, 4),
+                 "dlon_ref": RealRange(-200, 200), "dlat_ref2": RealRange(-4, 4), "dlon_ref2": RealRange(-200, 200),
+                 "i": Choice(0, 1), "k": Choice(*range(1, 60), quick=[1, 2, 30, 45, 59]),
+                 "surface": Choice(False, True), "head": BinStr(32), "tc": IntRange(0, 31), "mid": BinStr(16),
+                 "parity": BinStr(24), "case": BinStr(28)},
+         functions=[D5 + "airborne_position_with_ref", D6 + "surface_position_with_ref"],
+         body_of=[D5 + "airborne_position_with_ref", D6 + "surface_position_with_ref"], idealised=True,
+         timeout={"quick": 60000, "thorough": 600000})
+def with_ref_decoders_do_not_interfere(lat, lon, dlat_ref, dlon_ref, dlat_ref2, dlon_ref2, i, k, surface, head, tc, mid,
+                                       parity, case):
+    # frame condition (after seed C04-5, a zone-count cache shared by the airborne and the surface decoder and keyed
+    # by parity, zone index and YZ only): a decode is still right after an earlier decode - by the *other* decoder,
+    # of a frame with the same CPR bits, against a reference in the zone with the same index (latitude x4 or /4), and
+    # by the same decoder against a second reference
+    yz, rlat = cpr_spec.encode_lat(lat, i, surface)
+    assume(nl_spec.NL(rlat) == k)
+    xz, rlon = cpr_spec.encode_lon(lon, k, i, surface)
+    d_lat = cpr_spec.dlat(i, surface)
+    d_lon = cpr_spec.dlon(k, i, surface)
+    assume(-(d_lat / 2 - d_lat / 131072) <= dlat_ref and dlat_ref <= d_lat / 2 - d_lat / 131072)
+    assume(-(d_lon / 2 - d_lon / 131072) <= dlon_ref and dlon_ref <= d_lon / 2 - d_lon / 131072)
+    assume(-(d_lat / 2 - d_lat / 131072) <= dlat_ref2 and dlat_ref2 <= d_lat / 2 - d_lat / 131072)
+    assume(-(d_lon / 2 - d_lon / 131072) <= dlon_ref2 and dlon_ref2 <= d_lon / 2 - d_lon / 131072)
+    msg = position_frame(head, tc, mid, i, yz, xz, parity, case)
+    if surface:
+        outcome(B05.airborne_position_with_ref, msg, (lat + dlat_ref2) * 4, lon + dlon_ref2)
+        outcome(B06.surface_position_with_ref, msg, lat + dlat_ref2, lon + dlon_ref2)
+        r = B06.surface_position_with_ref(msg, lat + dlat_ref, lon + dlon_ref)
+    else:
+        outcome(B06.surface_position_with_ref, msg, (lat + dlat_ref2) / 4, lon + dlon_ref2)
+        outcome(B05.airborne_position_with_ref, msg, lat + dlat_ref2, lon + dlon_ref2)
+        r = B05.airborne_position_with_ref(msg, lat + dlat_ref, lon + dlon_ref)
+    s_lat = cpr_spec.lat_step(i, surface)
+    assert -s_lat <= r[0] - lat and r[0] - lat <= s_lat, \
+        "latitude within one quantisation step also after earlier decodes by the other and by the same decoder"
+    assert cpr_spec.within_mod360(r[1], lon, cpr_spec.lon_step(k, i, surface)), \
+        "longitude within one quantisation step (modulo 360) also after earlier decodes by the other and by the same decoder"
+
+
 def ap_ref_opaque(msg, lat_ref, lon_ref):
     return opaque("bds05.airborne_position_with_ref", msg, lat_ref, lon_ref)
 
